@@ -273,6 +273,7 @@ func c17Run(ctx *core.Ctx, idx int, dotu bool, steps int) core.Result {
 		op, argc := "", ""
 		created := ""   // relative path of an object the request creates (fid must designate it afterwards)
 		mayFail := true // an Rerror is judged against the twin
+		noTwin := false // the request was refused for a reason POSIX knows nothing about: only "tree unchanged" is judged
 		fid := uint32(20)
 		switch k := r.Intn(14); k {
 		case 0, 1: // create a regular file (free name)
@@ -308,8 +309,18 @@ func c17Run(ctx *core.Ctx, idx int, dotu bool, steps int) core.Result {
 			if !walk(fid, dir) {
 				continue
 			}
-			rep = rw.rpc(&wire.Msg{Type: wire.Tcreate, Fid: fid, Name: name, Perm: 0x80000000 | perm, Mode: 0})
-			perr = os.Mkdir(filepath.Join(twin, dir, name), os.FileMode(perm))
+			// mostly OREAD; sometimes a mode a directory cannot be created with (OTRUNC, ORCLOSE, write access): whether
+			// the server accepts such a create is not a POSIX matter, but an Rerror must leave the tree as it was
+			dmode := []uint8{0, 0, 0, 0, 0, 0x10, 0x40, 0x50, 1, 2, 0x11, 3}[r.Intn(12)]
+			rep = rw.rpc(&wire.Msg{Type: wire.Tcreate, Fid: fid, Name: name, Perm: 0x80000000 | perm, Mode: dmode})
+			if dmode == 0 || (rep != nil && rep.Type != wire.Rerror) {
+				perr = os.Mkdir(filepath.Join(twin, dir, name), os.FileMode(perm))
+			} else {
+				noTwin = true
+			}
+			if dmode != 0 {
+				argc += fmt.Sprintf(";mode%#x", dmode)
+			}
 			created = filepath.Join(dir, name)
 		case 3: // symlink (9P2000.u only)
 			if !dotu {
@@ -570,7 +581,9 @@ func c17Run(ctx *core.Ctx, idx int, dotu bool, steps int) core.Result {
 				if d := sameTree(before, after, nil); d != "" && op != "write" {
 					fail(fmt.Sprintf("error-but-changed;%s;%s", op, argc), what+fmt.Sprintf(": answered Rerror %q but the tree changed: %s", rep.Ename, d))
 				}
-				if perr == nil {
+				if noTwin {
+					// nothing to compare the refusal with
+				} else if perr == nil {
 					fail(fmt.Sprintf("error-but-posix-succeeds;%s;%s", op, argc), what+fmt.Sprintf(": answered Rerror %q/%d, the corresponding POSIX operation succeeds", rep.Ename, rep.Ecode))
 					// keep the twins aligned for the rest of the sequence
 					_ = os.RemoveAll(twin)
